@@ -5,7 +5,11 @@ Local Open Scope N_scope.
 
 (* Every read of every operation sequence returns the bytes of a flat byte
    array that receives the same writes (cache on/off, direct path, byte
-   writes, zeroout, block-size changes, any cache size >= 1). *)
+   writes, zeroout, block-size changes, write-through switched on and off at
+   any moment - also while dirty blocks are cached -, any cache size >= 1).
+   Write-through was excluded from this statement (hypothesis WThru = false)
+   until the thorough tier found the sequence of wt_ops below on the real
+   code; the hypothesis is gone with the repaired order of the direct write. *)
 Theorem read_latest : forall ops bsz n d,
   0 < bsz -> (0 < n)%nat -> wf_ops bsz ops ->
   fst (run (init bsz n d) ops) = fst (sp_run bsz d ops).
@@ -45,3 +49,12 @@ Example ex_wf : wf_ops 16 ex_ops.
 Proof. vm_compute. repeat split; reflexivity. Qed.
 Example ex_run : fst (run (init 16 8 (fun o => o mod 7)) ex_ops) = fst (sp_run 16 (fun o => o mod 7) ex_ops).
 Proof. vm_compute. reflexivity. Qed.
+
+(* the sequence on which the unrepaired unix_write_blk64 lost data: block 1 is cached dirty, write-through is
+   switched on, the cache fills up, and a two-block write-through of blocks 0-1 evicts the old copy of block 1 *)
+Definition wt_ops := [Wr 1 1 (repeat 77 16); Rd 3 3; WThru true; Rd 2 3; Wr 14 1 (repeat 5 16); Rd 8 2; Wr 0 2 (repeat 9 32); Flush; Rd 0 2].
+Example wt_wf : wf_ops 16 wt_ops.
+Proof. vm_compute. repeat split; reflexivity. Qed.
+Example wt_run : fst (run (init 16 8 (fun o => o mod 7)) wt_ops) = fst (sp_run 16 (fun o => o mod 7) wt_ops) /\
+  nth 8 (fst (run (init 16 8 (fun o => o mod 7)) wt_ops)) ROk = RBytes (repeat 9 32).
+Proof. vm_compute. split; reflexivity. Qed.
